@@ -118,6 +118,31 @@ def run(ctx):
             shape += ",after-a-genuine-server-was-accepted"
         agg.tried_row(tgt, shape, host, tls)
         rep = {"row": row, "observed": r}
+        if row.get("prior") == "concurrent":
+            co = r.get("concurrent")
+            if r.get("infra") or not co:
+                raise core.Inconclusive("row %d (concurrent): %s" % (i + 1, r.get("infra") or "no observation"))
+            n["concurrent_rows"] = n.get("concurrent_rows", 0) + 1
+            n["concurrent_dials"] = n.get("concurrent_dials", 0) + co["dials"]
+            if co["genuine_chain_handshakes_completed"] == 0 or co["row_chain_presented"] == 0:
+                raise core.Inconclusive("row %d (concurrent): the mix of genuine and row chains did not happen: %s" % (i + 1, co))
+            if not exp["accept"]:
+                n["reject_rows"] += 1
+                if co["row_chain_handshakes_completed"] or co["row_chain_app_bytes"]:
+                    agg.add("accepts-bad-server", tgt, shape + ",while-genuine-handshakes-run-through-the-same-endpoint", host, tls,
+                            "a server whose chain must be rejected (%s) completed %d of %d handshakes and received %d application bytes while handshakes "
+                            "with a genuine server ran through the same endpoint" % (shape, co["row_chain_handshakes_completed"], co["row_chain_presented"],
+                                                                                      co["row_chain_app_bytes"]), rep)
+                else:
+                    n["rejected_ok"] += 1
+            else:
+                n["accept_rows"] += 1
+                if co["row_chain_handshakes_completed"] != co["row_chain_presented"]:
+                    agg.add("rejects-good-server", tgt, shape + ",while-genuine-handshakes-run-through-the-same-endpoint", host, tls,
+                            "only %d of %d handshakes completed with a server whose chain verifies" % (co["row_chain_handshakes_completed"], co["row_chain_presented"]), rep)
+                else:
+                    n["accepted_ok"] += 1
+            continue
         srv = r["server"]
         n["hellos"] += srv["hellos"]
         n["handshakes"] += srv["handshakes"]
